@@ -170,7 +170,8 @@ func (eid *EndpointID) UnmarshalCbor(r io.Reader) error {
 		eid.EndpointType = tmpEt.Elem().Interface().(EndpointType)
 	}
 
-	return nil
+	// An EndpointID is checked when it is serialized. What was accepted here must be serializable again.
+	return eid.CheckValid()
 }
 
 // MarshalJSON writes the JSON representation of an EndpointID, which is the String representation.
